@@ -1050,6 +1050,10 @@ class Engine:
             for pn_ in pnames[len(args_):]:
                 if pn_ in kw:
                     args_.append(kw[pn_])
+        for pn_ in pnames[len(args_):]:     # omitted trailing parameters take the default values of the real `def`
+            if pn_ not in cc.defaults:
+                break
+            args_.append(ast.copy_location(ast.Constant(cc.defaults[pn_]), e))
         if len(args_) != len(pnames):
             raise OutOfSubset(f"arity of {name}")
         e = ast.Call(func=e.func, args=args_, keywords=[])
